@@ -40,8 +40,13 @@ def native_step(items, alt_items, opbyte):
     return req, {p: C.Native.run(req, p)[0] for p in ("debug", "release")}
 
 
+HEAVY = {"OP_MUL", "OP_DIV", "OP_MOD", "OP_NUM2BIN", "OP_WITHIN", "OP_LSHIFT", "OP_RSHIFT"}
+
+
 def configs(op, lens, tier):
     ar = OS.ARITY.get(op, 0)
+    if op in HEAVY and tier == "quick":
+        lens = tuple(l for l in lens if l <= 1) or (0, 1)
     depths = list(range(0, ar + 2)) if ar else [0, 1]
     for d in depths:
         # the top `ar` items take every length combination of the alphabet; items below have 1 byte
@@ -63,11 +68,14 @@ def q_opcode(env, ops=None, lens=(0, 1, 2), prop="C14", name=None, per_op_cap=1)
     f = env.fn("script_matching::<impl interpreter::Interpreter>::match_opcode")
     ops = ops or OS.CLAIMED
     seen = set()
+    import os, sys, time as _t
     for op in ops:
         if op not in P.enums["OpCodes"]:
             qr.undecided.append(f"{op}: not an OpCodes variant any more")
             continue
         opbyte = P.enums["OpCodes"][op]
+        if os.environ.get("MIRSYM_PROGRESS"):
+            print(f"[{_t.strftime('%H:%M:%S')}] {op} paths={qr.paths} queries={qr.queries}", file=sys.stderr, flush=True)
         for ls, altls in configs(op, lens, env.tier):
             qr.cases += 1
             ex = env.new_exec()
@@ -92,10 +100,10 @@ def q_opcode(env, ops=None, lens=(0, 1, 2), prop="C14", name=None, per_op_cap=1)
                 sp = OS.spec(op, r.ctx.items, r.ctx.alt)
                 if sp is None:
                     continue
+                se = SE.SeqEq(list(r.pc))
                 for cond, out in sp:
-                    se = SE.SeqEq(list(r.pc))
                     qr.queries += 1
-                    if se._check(cond) != z3.sat:
+                    if se._check(se.abstract(cond)) != z3.sat:
                         continue
                     kind, model = None, None
                     if r.kind == "panic":
@@ -116,17 +124,25 @@ def q_opcode(env, ops=None, lens=(0, 1, 2), prop="C14", name=None, per_op_cap=1)
                                 if len(got_list) != len(want_list):
                                     kind, model = f"{label} depth {len(got_list)} instead of {len(want_list)}", se.s.model()
                                     break
+                                eqs = []
+                                structural = True
                                 for gi, wi in zip(got_list, want_list):
-                                    stt = {}
-                                    outs = SE.compare(list(r.pc) + [cond], gi.s, wi, stt)
-                                    qr.queries += stt.get("queries", 0)
-                                    qr.solver_s += stt.get("solver_s", 0.0)
-                                    dif = [o for o in outs if o[0] == "differ"]
-                                    if any(o[0] == "unknown" for o in outs):
-                                        qr.undecided.append(f"{op}: solver unknown")
-                                    if dif:
-                                        kind, model = f"{label} differs", dif[0][2]
+                                    units = seq_units(gi.s)
+                                    if units is None:
+                                        structural = False
                                         break
+                                    eqs.append(OS.item_equals(wi, units))
+                                if not structural:
+                                    qr.undecided.append(f"{op}: result item of symbolic length")
+                                    break
+                                qr.queries += 1
+                                goal = se.abstract(z3.And(cond, z3.Not(z3.And(*eqs)))) if eqs else z3.BoolVal(False)
+                                rr = se._check(goal)
+                                if rr == z3.sat:
+                                    kind, model = f"{label} differs", se.s.model()
+                                    break
+                                if rr == z3.unknown:
+                                    qr.undecided.append(f"{op}: solver unknown")
                     if not kind:
                         continue
                     key = (op, kind.split(" (")[0])
@@ -144,7 +160,7 @@ def q_opcode(env, ops=None, lens=(0, 1, 2), prop="C14", name=None, per_op_cap=1)
                             else:
                                 pairs = [(b, z3.BitVecVal(bv_val(model, b), 8)) for it in r.ctx.items + r.ctx.alt for b in it]
                                 try:
-                                    exp = {"stack": [C.seq_value_to_bytes(C.evaluate(x, pairs)).hex() for x in o2[1]], "alt": [C.seq_value_to_bytes(C.evaluate(x, pairs)).hex() for x in o2[2]]}
+                                    exp = {"stack": [C.seq_value_to_bytes(C.evaluate(OS.desc_to_seq(x), pairs)).hex() for x in o2[1]], "alt": [C.seq_value_to_bytes(C.evaluate(OS.desc_to_seq(x), pairs)).hex() for x in o2[2]]}
                                 except Exception as e:
                                     exp = f"unevaluated ({e!r})"
                             break
@@ -164,4 +180,89 @@ def q_opcode(env, ops=None, lens=(0, 1, 2), prop="C14", name=None, per_op_cap=1)
                         qr.undecided.append(f"{op}: '{kind}' not reproduced natively: expected {json.dumps(exp)[:120]} native {json.dumps(nat)[:200]}")
             finish(qr, ex)
     qr.samples.append({"obligation": qr.name, "opcodes": len(ops), "item_lengths": list(lens), "configs": qr.cases})
+    return qr
+
+
+def q_step_error(env, ops=None, name=None):
+    """C16: after an erroring step (Interpreter::match_script_bit) the interpreter's main and alt stacks are those of the last
+    successfully returned state"""
+    qr = QResult(name or "step_error_state")
+    P = env.P
+    P.enums.setdefault("Sign", {"Minus": 0, "NoSign": 1, "Plus": 2})
+    f = env.fn("script_matching::<impl interpreter::Interpreter>::match_script_bit")
+    ops = ops or OS.CLAIMED
+    seen = set()
+    bits = [("OpCode", op) for op in ops] + [("If", "OP_IF"), ("If", "OP_NOTIF")]
+    for kind, op in bits:
+        if op not in P.enums["OpCodes"]:
+            continue
+        opbyte = P.enums["OpCodes"][op]
+        ar = OS.ARITY.get(op, 1 if kind == "If" else 0)
+        lens_top = (1, 5) if kind == "If" or op in ("OP_VERIFY", "OP_IFDUP", "OP_NOT", "OP_0NOTEQUAL", "OP_PICK", "OP_ROLL", "OP_SPLIT", "OP_NUM2BIN", "OP_BOOLAND", "OP_BOOLOR") else (1,)
+        for d in range(0, ar + 1):
+            for toplen in lens_top:
+                if d == 0 and toplen != lens_top[0]:
+                    continue
+                qr.cases += 1
+                ex = env.new_exec()
+
+                def setup(ex, d=d, toplen=toplen):
+                    ctx = Ctx()
+                    ls = [1] * max(0, d - 1) + ([toplen] if d else [])
+                    ctx.items = [item_terms(f"s{i}", n) for i, n in enumerate(ls)]
+                    ctx.alt = [item_terms("a0", 1)]
+                    state = mk_struct(P, "State", stack=ListV([Bytes(seq_of(it)) for it in ctx.items]), alt_stack=ListV([Bytes(seq_of(it)) for it in ctx.alt]),
+                                      status=Enum("Status", "Running", P.enums["Status"]["Running"]), executed_opcodes=ListV([]), codeseparator_offset=Int(0, "usize"))
+                    E = P.enums["ScriptBit"]
+                    if kind == "OpCode":
+                        bit = Enum("ScriptBit", "OpCode", E["OpCode"], [Enum("OpCodes", op, opbyte)])
+                    else:
+                        bit = Enum("ScriptBit", "If", E["If"], [Enum("OpCodes", op, opbyte), ListV([]), none()])
+                    interp = mk_struct(P, "Interpreter", script_bits=ListV([clone(bit)]), script_index=Int(0, "usize"), state=state, tx_script=none())
+                    ctx.interp = Ptr([interp], 0)
+                    return f, [ctx.interp, Ptr([bit], 0)], ctx
+                try:
+                    results = ex.explore(setup)
+                except Unsupported as e:
+                    qr.undecided.append(f"{op}: {e}")
+                    continue
+                for r in results:
+                    qr.paths += 1
+                    if r.kind != "ok" or r.ret.variant != "Err":
+                        continue
+                    iv = r.ctx.interp.get()
+                    stv = iv.f[P.structs["Interpreter"].index("state")]
+                    g = lambda nm: stv.f[P.structs["State"].index(nm)]
+                    same = True
+                    for got, want in ((g("stack").f, r.ctx.items), (g("alt_stack").f, r.ctx.alt)):
+                        if len(got) != len(want):
+                            same = False
+                            break
+                        for gi, wi in zip(got, want):
+                            outs = SE.compare(list(r.pc), gi.s, seq_of(wi), {})
+                            qr.queries += 1
+                            if any(o[0] != "equal" for o in outs):
+                                same = False
+                    if same or (op, kind) in seen:
+                        continue
+                    seen.add((op, kind))
+                    s = z3.Solver()
+                    for c in r.pc:
+                        s.add(c)
+                    s.check()
+                    m = s.model()
+                    items = [bytes(bv_val(m, b) for b in it) for it in r.ctx.items]
+                    alts = [bytes(bv_val(m, b) for b in it) for it in r.ctx.alt]
+                    scr = push_script(items, alts, opbyte) + (bytes([0x68]) if kind == "If" else b"")
+                    req = {"tx": {"version": 1, "locktime": 0, "inputs": [], "outputs": []}, "ops": [{"op": "interp", "script": scr.hex()}]}
+                    nat = {p: C.Native.run(req, p)[0] for p in ("debug", "release")}
+                    item = {"message": f"{op}: after the step fails the interpreter's stacks differ from the last successfully returned state [stack {[i.hex() for i in items]}]",
+                            "request": req, "op_index": 0, "expected": "state_after_error == last_ok", "native": nat, "opcode": op}
+                    rep = any(("err" in v and v.get("state_after_error") != v.get("last_ok")) for v in nat.values())
+                    if rep:
+                        qr.violations.append(item)
+                    else:
+                        qr.undecided.append(f"{op}: state change on error not reproduced natively: {json.dumps(nat)[:200]}")
+                finish(qr, ex)
+    qr.samples.append({"obligation": qr.name, "script_bits": len(bits)})
     return qr
